@@ -21,6 +21,9 @@ DQ = ['"x"', '"[a]"', '"a b"', '"^r.*"', '"%.2f"', '"it\'s"', '"(p)"', '""']
 SQ = ["'x'", "'[a]'", "'y z'", "'A'", "'a)b'"]
 BQ = ["`2020-01-01`", "`[d]`", "`2004-01-01T00:00:00`"]
 
+AVOID = {"percent": True}
+EXCLUDED = {}
+
 PREC = {"or": 1, "and": 2, "not": 3, "cmp": 4, "add": 5, "mul": 6, "neg": 7, "atom": 9, "func": 9}
 
 
@@ -62,7 +65,12 @@ def gen_arith(ch, d):
         return ["neg", inner]
     if k < 5:
         return ["bin", ch.choice(ARITH1), gen_arith(ch, d - 1), gen_arith(ch, d - 1)]
-    return ["bin", ch.choice(ARITH2), gen_arith(ch, d - 1), gen_arith(ch, d - 1)]
+    op = ch.choice(ARITH2 + ["%"])
+    if op == "%" and AVOID["percent"]:
+        # open known finding KF10b: the grammar treats % as a comparison operator
+        EXCLUDED["KF10b:percent_operator"] = EXCLUDED.get("KF10b:percent_operator", 0) + 1
+        op = "*"
+    return ["bin", op, gen_arith(ch, d - 1), gen_arith(ch, d - 1)]
 
 
 def gen_cmp(ch, d_arith=1, percent_ok=False):
